@@ -28,6 +28,19 @@ grep -h "^VIOLATION\|^ANALYSIS-ERROR" $log | head -5
 if [ "$nosuite" != "--no-suite" ]; then
   (cd $wt && PYTHONPATH=$wt/src timeout 3000 /venv/bin/python -m pytest -q -p no:cacheprovider --timeout=900 --continue-on-collection-errors -n 8 --junitxml=/tmp/vs/$name.junit.xml > /tmp/vs/$name.suite.log 2>&1)
   /venv/bin/python /verif/tools/compare_baseline.py /tmp/vs/$name.junit.xml | tee -a $log | head -12
+  # xdist makes a few port/time sensitive tests flaky: re-run the stable tests that did not pass, serially
+  ids=$(grep "^FAILED\|^MISSING" $log | awk '{print $2}' | /venv/bin/python -c "
+import sys
+for l in sys.stdin:
+    l=l.strip()
+    if '::' not in l: continue
+    mod,name=l.split('::',1)
+    print(mod.replace('.','/')+'.py::'+name)
+")
+  if [ -n "$ids" ]; then
+    echo "### serial re-run of non-passing stable tests" | tee -a $log
+    (cd $wt && PYTHONPATH=$wt/src timeout 1800 /venv/bin/python -m pytest -q -p no:cacheprovider $ids 2>&1 | tail -8 | tee -a $log)
+  fi
 fi
 git -C /repo worktree remove --force $wt
 rm -rf /tmp/vs/$name-evidence
